@@ -160,7 +160,7 @@ func (e *Environment) SaveGlobals(to io.Writer, maxValueLen int) (int, error) {
 		v := e.store[k]
 		if v.Type() == FUNC {
 			f := v.(Function)
-			if f.Name != nil {
+			if f.Name != nil && f.Name.Literal() == k {
 				// Named function inspect is ready for definition, eg func y(a,b){a+b}.
 				_, err := fmt.Fprintf(to, "%s\n", f.Inspect())
 				if err != nil {
@@ -172,8 +172,8 @@ func (e *Environment) SaveGlobals(to io.Writer, maxValueLen int) (int, error) {
 				}
 				continue
 			}
-			// Anonymous function are like other variables.
-			//   x=func(a,b){a+b}
+			// Anonymous functions, and named ones held under another name, are like other variables.
+			//   x=func(a,b){a+b}   g=func f(a){a+1}
 			// fallthrough.
 		}
 		val := v.Inspect()
